@@ -30,6 +30,7 @@ type Oblig struct {
 	Cover   bool // vacuity cover: must NOT be unsat
 	Site    string
 	Progress bool
+	NoAssume bool // not proved: later obligations on the path must not assume it
 }
 
 type Item struct {
@@ -92,6 +93,7 @@ type Path struct {
 }
 
 type FnCtx struct {
+	refine    *refineInfo
 	env       *Env
 	fn        *ssa.Function
 	spec      *FuncSpec
@@ -607,7 +609,17 @@ func (p *Path) loadIn(st *State, addr string, t types.Type, wf bool) string {
 	case *types.Struct:
 		if !structIsData(t) {
 			h := p.heapIn(st, env.memHeap(t))
-			return fmt.Sprintf("(select %s %s)", h, addr)
+			term := fmt.Sprintf("(select %s %s)", h, addr)
+			if wf {
+				// the exported fields of the value are what the field cells hold
+				for i := 0; i < u.NumFields(); i++ {
+					if u.Field(i).Exported() {
+						fv := p.loadIn(st, fmt.Sprintf("(%s %s)", env.fieldFn(t, i), addr), u.Field(i).Type(), wf)
+						p.assume(fmt.Sprintf("(= %s %s)", env.structFieldVal(t, term, i), fv))
+					}
+				}
+			}
+			return term
 		}
 		sn := env.structSort(t)
 		if u.NumFields() == 0 {
@@ -653,6 +665,13 @@ func (p *Path) store(addr string, t types.Type, v string) {
 				p.store(fmt.Sprintf("(%s %s)", env.fieldFn(t, i), addr), u.Field(i).Type(), env.structFieldVal(t, v, i))
 			}
 			return
+		}
+		// opaque struct (a library type with private fields): the value as a whole, and its exported fields, which
+		// code outside the library reads through field addresses
+		for i := 0; i < u.NumFields(); i++ {
+			if u.Field(i).Exported() {
+				p.store(fmt.Sprintf("(%s %s)", env.fieldFn(t, i), addr), u.Field(i).Type(), env.structFieldVal(t, v, i))
+			}
 		}
 	case *types.Array:
 		if u.Len() <= 8 {
@@ -715,6 +734,13 @@ func (p *Path) flatLocs(addr string, t types.Type) []Loc {
 			}
 			return out
 		}
+		out := []Loc{{Heap: env.memHeap(t), Addr: addr}}
+		for i := 0; i < u.NumFields(); i++ {
+			if u.Field(i).Exported() {
+				out = append(out, p.flatLocs(fmt.Sprintf("(%s %s)", env.fieldFn(t, i), addr), u.Field(i).Type())...)
+			}
+		}
+		return out
 	case *types.Array:
 		return p.regionLocs(addr, "0", fmt.Sprint(u.Len()), u.Elem())
 	}
